@@ -1,7 +1,87 @@
-#!/bin/sh
-# thorough tier: see DESIGN.md 1.3. (1) the rules on the default configuration, (2) the same rules on the
-# GOOS=windows / GOOS=darwin configurations and with test files loaded, (3) the self-validation corpus.
+#!/bin/bash
+# thorough tier of one property (DESIGN.md 1.3):
+#  (1) self-validation corpus: every seeded property-breaking change of this property (seeded/<id>-mN) and every
+#      reverted fix: commit of this property must be reported; every behaviour-preserving variant tagged with this
+#      property must stay silent. Each variant is analysed in its own scratch worktree of /repo's HEAD + working tree
+#      state is NOT used for variants (they are patches against HEAD) - the worktree is removed afterwards.
+#  (2) the rules on the GOOS=windows / GOOS=darwin build configurations and with test files loaded;
+#  (3) the rules on /repo's current working tree, evidence tier=thorough with (1) and (2) embedded.
+# A missed breaking variant / flagged preserving variant / failing configuration is a CHECKER-ERROR (exit 2), not a violation.
 set -u
 HERE=$(cd "$(dirname "$0")" && pwd)
 PROP=$1; shift
-exec "$HERE/bin/gmqttlint" -property "$PROP" -tier thorough "$@"
+export GOFLAGS=-mod=mod GOPROXY=off GOTOOLCHAIN=local PATH=/opt/veriftools/go1.26.8/bin:$PATH
+unset GOWORK 2>/dev/null || true
+BIN="$HERE/bin/gmqttlint"
+REPO=${VERIF_REPO:-/repo}
+OUT=$(mktemp -d /tmp/vthorough.XXXXXX)
+trap 'rm -rf "$OUT"' EXIT
+J=${VERIF_JOBS:-6}
+
+variant() { # id kind expect patch rev
+  id=$1; kind=$2; expect=$3; patch=$4; rev=$5
+  res=$("$HERE/selftest/with_patch.sh" $rev "$patch" "$PROP" 2>&1)
+  n=$(echo "$res" | grep -c "^VIOLATION property=$PROP ")
+  err=$(echo "$res" | grep -E "^(CHECKER-ERROR|PATCH-DOES-NOT)" | head -1)
+  keys=$(echo "$res" | grep -o "rule [^ ]* \[[^]]*\]" | sed 's/.*\[\(.*\)\]/\1/' | sort -u | head -5 | tr '\n' ';')
+  echo "$id|$kind|$expect|$n|$err|$keys" > "$OUT/v.$id"
+}
+export -f variant; export HERE PROP OUT
+{
+  for d in "$HERE"/seeded/"$PROP"-m*/; do
+    [ -d "$d" ] || continue
+    id=$(basename "$d"); grep -q '"obsolete"' "$d/meta.json" && continue
+    exp=detect; grep -q "\"$id\"" "$HERE/selftest/expected_miss.json" 2>/dev/null && exp=miss
+    echo "$id breaking $exp $d/patch.diff ''"
+  done
+  python3 - "$HERE/known_findings.json" "$PROP" <<'PY'
+import json,sys
+for f in json.load(open(sys.argv[1]))["findings"]:
+    if f.get("status")=="fixed" and f.get("commit") and f["property"]==sys.argv[2] and not f.get("no_revert"):
+        print("fix-%s reverted-fix detect commit:%s -R" % (f["commit"], f["commit"]))
+PY
+  python3 - "$HERE/selftest/preserving/index.json" "$PROP" "$HERE" <<'PY'
+import json,sys,os
+idx=json.load(open(sys.argv[1]))
+for name,props in sorted(idx.items()):
+    if sys.argv[2] in props:
+        print("%s preserving silent %s/selftest/preserving/%s.diff ''" % (name, sys.argv[3], name))
+PY
+} | xargs -P "$J" -L 1 bash -c 'variant "$0" "$1" "$2" "$3" "$4"'
+
+# (2) other build configurations
+cfg() { name=$1; shift; "$BIN" -repo "$REPO" -property "$PROP" -tier quick -no-evidence "$@" > "$OUT/c.$name.txt" 2>&1; echo "$name|$?|$(grep -c '^VIOLATION' "$OUT/c.$name.txt")|$(grep '^SUMMARY' "$OUT/c.$name.txt" | sed 's/.*obligations=\([0-9]*\).*/\1/')" > "$OUT/c.$name"; }
+cfg windows -goos windows &
+cfg darwin -goos darwin &
+cfg tests -tests &
+wait
+
+python3 - "$OUT" "$PROP" > "$OUT/corpus.json" <<'PY'
+import sys,os,json,glob
+out,prop=sys.argv[1],sys.argv[2]
+vs=[];fails=[]
+for f in sorted(glob.glob(out+"/v.*")):
+    id,kind,exp,n,err,keys=open(f).read().strip().split("|",5)
+    n=int(n)
+    outcome="detected" if n>0 else "silent"
+    if err: outcome="error: "+err
+    vs.append({"id":id,"kind":kind,"expected":exp,"outcome":outcome,"violations":n,"reported":[k for k in keys.split(";") if k]})
+    if err: fails.append("variant %s could not be analysed: %s"%(id,err))
+    elif exp=="detect" and n==0: fails.append("breaking variant %s (%s) is NOT reported by the rules of %s"%(id,kind,prop))
+    elif exp=="silent" and n>0: fails.append("behaviour-preserving variant %s is reported (%s)"%(id,keys))
+cs=[]
+for f in sorted(glob.glob(out+"/c.*")):
+    if f.endswith(".txt"): continue
+    name,rc,nv,nob=open(f).read().strip().split("|")
+    cs.append({"configuration":name,"exit":int(rc),"violations":int(nv),"obligations":int(nob or 0)})
+    if int(rc)!=0: fails.append("configuration %s: exit %s, %s violations (see thorough output)"%(name,rc,nv))
+json.dump({"variants":vs,"configs":cs,"failures":fails},sys.stdout,indent=1)
+PY
+for f in "$OUT"/c.*.txt; do grep -H -E "^(VIOLATION|CHECKER-ERROR)" "$f" | sed "s#$OUT/##" | head -5; done
+python3 -c "
+import json,sys
+d=json.load(open('$OUT/corpus.json'))
+print('THOROUGH property=$PROP variants=%d (breaking %d, reverted-fix %d, preserving %d) configs=%d failures=%d' % (len(d['variants']), sum(v['kind']=='breaking' for v in d['variants']), sum(v['kind']=='reverted-fix' for v in d['variants']), sum(v['kind']=='preserving' for v in d['variants']), len(d['configs']), len(d['failures'])))
+for v in d['variants']: print('  %-34s %-13s expected=%-7s %s' % (v['id'], v['kind'], v['expected'], v['outcome']))
+"
+exec "$BIN" -repo "$REPO" -property "$PROP" -tier thorough -corpus "$OUT/corpus.json" "$@"
